@@ -59,6 +59,13 @@ def leaf(rng, n, poly):
                 pass
     if rng.random() < 0.06:
         return {'k': 'sig', 'poly': poly, 'n': n, 'alpha': [['0'] * n], 'c': [rng.choice(['0', '3'])]}   # constant / zero
+    if t.get('k') == 'sig' and rng.random() < 0.1:
+        # the same exponent twice, once with -0.0 where the other has 0.0 (what y ** -1 leaves behind): ONE term
+        rows = [i for i, r in enumerate(t['alpha']) if any(F(x) == 0 for x in r)]
+        if rows:
+            i = rng.choice(rows)
+            t = dict(t, alpha=t['alpha'] + [list(t['alpha'][i])], c=t['c'] + [frac_str(F(rng.choice([1, 2, -3])))],
+                     negzero_rows=[len(t['alpha'])])
     return t
 
 
@@ -156,8 +163,10 @@ def impl_shift(c):
 def impl_matrix(c):
     f = st.build(c['t'])
     X = np.array([[float(F(v)) for v in col] for col in c['cols']]).T     # columns are points
+    if c.get('int_points'):
+        X = X.astype(int)          # the caller hands over an INTEGER matrix of points (the values need not be integers)
     vals = f(X)
-    each = [f(X[:, j]) for j in range(X.shape[1])]
+    each = [f(X[:, j].astype(float)) for j in range(X.shape[1])]
     return {'matrix': [st.fr(v) for v in np.asarray(vals, dtype=float).ravel()], 'each': [st.fr(v) for v in each]}
 
 
@@ -397,6 +406,9 @@ def run(ctx):
             vcases_p.append({'t': t, 'x': [frac_str(F(rng.randint(-4, 4), rng.choice([1, 2]))) for _ in range(n)]})
             cols = [[frac_str(F(rng.randint(-3, 3), rng.choice([1, 2]))) for _ in range(n)] for _ in range(rng.randint(1, 4))]
             mats.append({'t': t, 'cols': cols})
+            if rng.random() < 0.4:
+                mats.append({'t': t, 'cols': [[frac_str(F(rng.randint(-3, 3))) for _ in range(n)] for _ in range(rng.randint(2, 4))],
+                             'int_points': True})
         elif half_integer_exponents(t):
             # evaluation / shift points are ln(4) k: e^{alpha.x} is an exact power of two only for half-integer exponents
             k = [rng.randint(-2, 2) for _ in range(n)]
